@@ -451,6 +451,25 @@ def c08(req, ra, ctr):
     fails = []
     if 'no-sources' in ra[6] or 'no-depths' in ra[6]:
         return ['no-depths: result lacks sources / +depths (%s)' % (ra[6],)]
+    if any(d['src'] is not None for d in ds):
+        # inputs that already carry provenance (results of earlier operations): the depth rule -- depths grow by one per
+        # level of embedding and a callable reached twice keeps the smaller depth
+        ctr['c08:depth-rule-checked'] += 1
+        ind = [core.desc_src(d)[1] for d in ds]
+        want_d = dict(ind[0])
+        if op == 'merge':
+            for dd in ind[1:]:
+                for f, v in dd.items():
+                    want_d[f] = min(want_d.get(f, v), v)
+        elif op in ('embed', 'forwards'):
+            for lvl, dd in enumerate(ind[1:], 1):
+                for f, v in dd.items():
+                    want_d[f] = min(want_d.get(f, v + lvl), v + lvl)
+        got_d = dict(ra[3])
+        if got_d != want_d:
+            return ['depth-rule: +depths = %s, expected %s (smallest depth of each callable; one more per level of embedding) for %s' % (
+                got_d, want_d, engine.line(req))]
+        return []
     R = R_full(ra)
     rnames = [p[0] for p in R]
     src = {core.NAMES.name(k): list(v) for k, v in ra[2]}
@@ -1065,6 +1084,10 @@ def c19(req, ra, ctr):
 def c04(req, ra, ctr):
     """forwards(outer, inner, n, *names, flags) == embed(outer, mask(inner, n, *names, ...)) in parameters and
     provenance, on the real code"""
+    if req[0].startswith('rt:'):
+        if ra[0] == 'ok' and len(ra) > 2 and isinstance(ra[2], str):
+            ctr['c04:' + ra[2].split(':')[0]] += 1
+        return rt_problems(req, ra)
     if req[0] != 'forwards':
         return []
     import warnings
